@@ -121,7 +121,7 @@ def run(g, kw, block, specfile, specline):
 
     def open_mod():
         if chunks and not opened[0]:
-            g.emit('pub mod parse_arms_%d {\nuse vstd::prelude::*;\nuse super::*;\nverus! {' % (count[0] // per), 'spec', specfile, specline, False)
+            g.emit('pub mod parse_arms_%d {\nuse vstd::prelude::*;\nuse super::*;\nverus! {\nbroadcast use {axiom_id_ext, axiom_id_mk};' % (count[0] // per), 'spec', specfile, specline, False)
             opened[0] = True
 
     def close_mod(force=False):
@@ -225,6 +225,11 @@ def one_arm(g, kw, specfile, specline, src, it, arm, pat_text, is_alt, ops, wpv,
                 g.emit(ccontracts[c], 'spec', specfile, specline, False)
             g.emit_segs(g.body_with_insertions(src, b_lo, b_hi, {}, [], MOD), MOD)
             g.emit(';', 'spec', specfile, specline, False)
-        g.emit_segs(g.body_with_insertions(src, arm.body_lo, arm.body_hi, {}, [], MOD), MOD)
+        hints = []
+        for key, txt in contracts.items():
+            if key.startswith('hint:%s:' % name) or key == 'hint:%s' % name:
+                first, _, rest = txt.partition('\n')
+                hints.append((0, first.strip(), rest))
+        g.emit_segs(g.body_with_insertions(src, arm.body_lo, arm.body_hi, {}, hints, MOD), MOD)
         g.emit('}', 'spec', specfile, specline, False)
         g.end_block(c_lo, c_hi)
